@@ -302,7 +302,7 @@ func runEndToEndBatch(w *gen.Writer, root string, n int, vals []string, localPri
 			w.Count("e2e-print-links-followed", 1)
 			if p.status != 200 {
 				key := "render-failed:e2e:print"
-				if !utf8.ValidString(val+repoVal) && strings.Contains(string(p.body), "invalid UTF-8") {
+				if (!utf8.ValidString(val) || !utf8.ValidString(repoVal)) && strings.Contains(string(p.body), "invalid UTF-8") {
 					key = "print-page-rejects-invalid-utf8-name"
 				}
 				fail(key, fmt.Sprintf("%s: status %d: %s", clipStr(h, 120), p.status, clipStr(string(p.body), 160)))
